@@ -170,6 +170,32 @@ def main():
                     progs.append(None)
                     continue
 
+                if "customise" in step:
+                    # the caller edits a program it was given, in place (its own copy: nothing a later load returns may change)
+                    q = progs[step["customise"]]
+                    try:
+                        if q is not None:
+                            q.target["options"]["shots"] = 100
+                            q.target["options"]["copies"] = 3
+                            q.programtype["options"]["temporal_modes"] = 77
+                            q.variables["zz_custom"] = 1.5
+                            for o in q.operations:
+                                o["modes"].append(41)
+                                o.setdefault("kwargs", {})["zz_custom"] = 2
+                                if o.get("args"):
+                                    o["args"][0] = "edited"
+                            q.operations.append({"op": "Custom", "modes": [40]})
+                            if isinstance(q.modes, set):
+                                q.modes.add(40)
+                            for v in q.variables.values():
+                                if isinstance(v, np.ndarray) and v.dtype.kind in "if":
+                                    v[...] = 0
+                    except Exception:  # noqa: BLE001
+                        pass
+                    res.append({"out": "customised"})
+                    progs.append(None)
+                    continue
+
                 def run(step=step, holder=holder):
                     if step.get("cwd"):
                         os.chdir(step["cwd"])
